@@ -1294,9 +1294,14 @@ impl<D: TextDecorator> SubRenderer<D> {
 
 fn filter_text_strikeout(s: &str) -> Option<String> {
     let mut result = String::new();
-    for c in s.chars() {
+    let mut chars = s.chars().peekable();
+    while let Some(c) = chars.next() {
         result.push(c);
-        if !c.is_whitespace() && UnicodeWidthChar::width(c).unwrap_or(0) > 0 {
+        if !c.is_whitespace()
+            && UnicodeWidthChar::width(c).unwrap_or(0) > 0
+            // Already struck out by an enclosing <s>/<del>: one mark is enough
+            && chars.peek() != Some(&'\u{336}')
+        {
             // This is a visible character with width (not white space, a
             // combining or other character) so add a strikethrough combiner.
             result.push('\u{336}');
